@@ -41,6 +41,7 @@ table = ["Seeded faults: %d kept, %d confirmed independently, %d detected by the
          "| id | round | change (first line of the sub-agent's notes) | confirmed | own check fires | checks that report a VIOLATION |", "|---|---|---|---|---|---|"] + rows + retired
 p = os.path.join(V, "DESIGN.md")
 s = open(p).read()
-s = re.sub(r"<!-- SEED-TABLE-BEGIN -->.*<!-- SEED-TABLE-END -->", "<!-- SEED-TABLE-BEGIN -->\n" + "\n".join(table) + "\n<!-- SEED-TABLE-END -->", s, flags=re.S)
+block = "<!-- SEED-TABLE-BEGIN -->\n" + "\n".join(table) + "\n<!-- SEED-TABLE-END -->"
+s = re.sub(r"<!-- SEED-TABLE-BEGIN -->.*<!-- SEED-TABLE-END -->", lambda m: block, s, flags=re.S)
 open(p, "w").write(s)
 print("\n".join(table[:1]))
